@@ -145,6 +145,55 @@ def run(tier, seed):
       if backend == 'ram':
         cases.append('(%s, %s, %s, %s, %s)' % (gl(prefix), gl(rpcs), C.glist(list(ex), C.gnat), C.glist(res['outcomes'], svc.g_outcome), svc.g_snapshot(res['snapshot'])))
         objs.append(obj)
+  # ---- focused stage: every pair of trial-level calls on the SAME trial, and every schedule of the form "A takes j steps, then B
+  # runs to completion, then A finishes" (and B / A swapped): a read-modify-write whose read happens outside the lock is exposed
+  # by one of them
+  RMW = ['CompleteTrial', 'AddTrialMeasurement', 'StopTrial', 'UpdateMetadata', 'DeleteTrial', 'CheckEarlyStop']
+  fpairs = list(itertools.combinations_with_replacement(RMW, 2))
+  if tier == 'quick':
+    r.shuffle(fpairs)
+    fpairs = fpairs[:14] + [p_ for p_ in fpairs[14:] if 'AddTrialMeasurement' in p_ or 'CompleteTrial' in p_][:4]
+  for (ka, kb) in fpairs:
+    prefix = [('CreateStudy', 1, 1, False, 'SS_ACTIVE', [(1, True)]), ('SuggestTrials', 1, 1, 1, 2, ('deliver', [10, 20], [], []))]
+    if r.random() < 0.5:
+      prefix.append(('AddTrialMeasurement', 1, 1, 1, [(1, 1)]))
+    ctx = {'ids': [1], 'active': [1]}
+    backend = 'ram' if r.random() < 0.7 else 'sqlmem'
+    a, b = make_rpc(r, ka, ctx), make_rpc(r, kb, ctx)
+    if a[0] == 'UpdateMetadata':
+      a = ('UpdateMetadata', 1, 1, [], [(1, ('', 'k', 0, 'v'))])
+    if b[0] == 'UpdateMetadata':
+      b = ('UpdateMetadata', 1, 1, [], [(1, ('', 'k2', 0, 'w'))])
+    rpcs = [a, b]
+    serials = [conc.run_serial(backend, prefix, rpcs, o) for o in itertools.permutations(range(2))]
+    seen_exec = set()
+    for first in (0, 1):
+      for j in range(0, 9):
+        sched = [first] * j + [1 - first] * 40 + [first] * 40
+        res = conc.run_concurrent(backend, prefix, rpcs, sched)
+        ex = tuple(res['executed'])
+        if ex in seen_exec:
+          continue
+        seen_exec.add(ex)
+        obj = {'backend': backend, 'prefix': prefix, 'rpcs': rpcs, 'schedule': list(ex)}
+        rep.case({'rpcs': [x[:5] for x in rpcs], 'schedule': list(ex), 'stage': 'same-trial'}, 0 < j)
+        rep.count('same_trial_%s+%s' % (ka, kb))
+        if res['deadlock']:
+          concrete = True
+          rep.violation('deadlock: no runnable thread although calls are unfinished', obj)
+          continue
+        if not any(conc.equivalent(res, s_, res['before']) for s_ in serials):
+          fid = classify(rpcs, res, serials)
+          if fid and fid in known:
+            rep.known(fid, known[fid]['what'])
+          else:
+            concrete = True
+            rep.violation('interleaving of %s and %s on the same trial is not equivalent to any serial order' % (a[0], b[0]),
+                          dict(obj, outcomes=[o[:2] for o in res['outcomes']]))
+        if backend == 'ram':
+          cases.append('(%s, %s, %s, %s, %s)' % (gl(prefix), gl(rpcs), C.glist(list(ex), C.gnat), C.glist(res['outcomes'], svc.g_outcome), svc.g_snapshot(res['snapshot'])))
+          objs.append(obj)
+
   bad = C.run_cases('C04', 'conc', svc.HDR + 'From VZ Require Import Model.Conc.\n', cases, 'conc_case_ok', shard=60)
   rep.disagreements += len(bad)
   for i in bad[:3]:
